@@ -265,6 +265,9 @@ def run_proto_one(it):
             guard += 1
             s.settle()
             if it["stop_at"] is not None and len(stream) >= it["stop_at"]:
+                if it.get("stall"):
+                    s.advance(it["stall"])         # the peer stops reading for longer than any protocol timeout before it goes away
+                    rec["returned_while_peer_stalled"] = done["v"]
                 peer.close()                       # the peer goes away in the middle of the message
                 break
             got = peer.read(it["read"])
@@ -308,6 +311,235 @@ def run_proto_one(it):
     if s.outcome != "done":
         rec["wedge"] = s.wedge_info
     return rec
+
+
+def run_proto_multi(it):
+    """1-3 application threads send through the real HsmsProtocol over the real TcpServerConnection at the same time; the peer
+    reads `stop_at` bytes and closes (or drains everything).  Used by C10 (what send_message reports vs the peer's byte stream)
+    and C09 (the endpoint finishes its close sequence while sends are in flight)."""
+    import secsgem.hsms
+    from .. import link
+
+    rec = dict(it)
+    rec.update({"sends": [], "received": [], "reset": False})
+
+    def main(s):
+        net = simsock.Net(capacity=it["cap"])
+        simsock.set_net(net)
+        st = secsgem.hsms.HsmsSettings(connect_mode=secsgem.hsms.HsmsConnectMode.PASSIVE, port=5004)
+        proto = secsgem.hsms.HsmsProtocol(st)
+        proto._linktest_timeout = 1e9
+        proto.enable()
+        s.advance(0.3)
+        peer = net.dial(5004)
+        if peer is None:
+            raise Machinery("endpoint not listening")
+        s.run_until(lambda: proto.connection_state.current.name != "NOT_CONNECTED", max_dt=30)
+        peer.write(link.hsms_frame(stype=1, system=5))
+        ok, why = s.run_until(lambda: proto.connection_state.current.name == "CONNECTED_SELECTED", max_dt=30)
+        if not ok:
+            raise Machinery(f"not selected: {why}")
+        peer.read()
+        sizes = it["bodies"]
+        done = {}
+        conn_sid = 4                       # SendHandoverTrace runs with NS = 3: application senders 1..3, connection thread 4
+        s.settle()
+        rtrig, sendq = proto._thread._receiver_thread_trigger, proto._send_queue
+        owner = {}                         # id(BlockSendInfo) -> sender
+        pending_trig = set()
+        tracing = {"on": True}
+
+        def sid_of_thread():
+            nm = s.cur.name if s.cur is not None else "?"
+            if nm.startswith("sender"):
+                return int(nm[6:]) + 1
+            if nm.startswith("secsgem_tcpConnection_receiver") or nm.startswith("secsgem_tcpClientConnection") or nm.startswith("secsgem_tcpServerConnection"):
+                return conn_sid
+            return None
+
+        def on_put(q, item):
+            if q is sendq and tracing["on"]:
+                sd = sid_of_thread()
+                owner[id(item)] = (sd, item)
+                pending_trig.add(sd)
+                s.emit("Put", s=sd or 0)
+
+        def on_op(kind, obj, val):
+            if not tracing["on"]:
+                return
+            if obj is rtrig:
+                if kind == "set":
+                    sd = sid_of_thread()
+                    if sd in pending_trig:
+                        pending_trig.discard(sd)
+                        s.emit("Trig", s=sd)
+                    else:
+                        s.emit("Kick")
+                elif kind == "wait":
+                    s.emit("RWake")
+                elif kind == "clear":
+                    s.emit("RClear")
+            elif obj is sendq and kind == "get":
+                s.emit("RGet", s=(owner.get(id(val)) or (0,))[0] or 0)
+
+        s.put_hook = on_put
+        s.op_hook = on_op
+        rec["_owner"] = owner
+        rec["_tracing"] = tracing
+
+        def sender(k):
+            msg = secsgem.hsms.HsmsMessage(secsgem.hsms.HsmsStreamFunctionHeader(100 + k, 7, 2 * k + 1, False, 0), fill(k + 1, sizes[k]))
+            try:
+                done[k] = bool(proto.send_message(msg))
+            except Exception as exc:  # noqa: BLE001
+                done[k] = False
+                rec["send_exception"] = type(exc).__name__
+
+        for k in range(len(sizes)):
+            simrt.Thread(target=sender, args=(k,), name=f"sender{k}").start()
+        stream = bytearray()
+        guard = 0
+        closed_by_peer = False
+        if it.get("early"):
+            # the peer goes away a moment after the sends were queued: the receiver loop may not have looked at them yet
+            s.advance(it["early"])
+            peer.close()
+            closed_by_peer = True
+        while not closed_by_peer and guard < 400000 and not (len(done) == len(sizes) and not peer.rx):
+            guard += 1
+            s.settle()
+            if it["stop_at"] is not None and len(stream) >= it["stop_at"]:
+                peer.close()
+                closed_by_peer = True
+                break
+            got = peer.read(it["read"])
+            stream += got
+            if not got and len(done) < len(sizes):
+                nd = s.next_deadline()
+                if nd is None:
+                    break
+                s.block(("pace",), max(0.0, nd - s.now))
+        s.run_until(lambda: len(done) == len(sizes), max_dt=120)
+        while peer.rx:
+            stream += peer.read()
+        rec["returned"] = sorted(done)
+        rec["done"] = len(done) == len(sizes)
+        rec["stream_len"] = len(stream)
+        if closed_by_peer:
+            okc, _ = s.run_until(lambda: proto.connection_state.current.name == "NOT_CONNECTED", max_dt=120)
+            rec["state_after_peer_close"] = proto.connection_state.current.name
+            if not okc:
+                rec["blocked"] = [b["thread"] + ":" + "/".join(b["stack"][-2:]) for b in s.blocked_report()][:6]
+        # cut the peer's stream into frames (reference layout: 4 length bytes, 10 header bytes, body) and attribute them
+        order, pos, foreign = [], 0, False
+        runs = []
+        while pos < len(stream):
+            if len(stream) - pos < 14:
+                foreign = foreign or len(stream) - pos > 0 and not closed_by_peer
+                break
+            ln = int.from_bytes(stream[pos:pos + 4], "big")
+            fn = stream[pos + 7]
+            k = (fn - 1) // 2
+            if not (fn % 2 == 1 and 0 <= k < len(sizes) and ln == sizes[k] + 10 and k not in order):
+                foreign = True
+                break
+            body = bytes(stream[pos + 14:pos + 4 + ln])
+            order.append(k)
+            good = len(body) if body == fill(k + 1, sizes[k])[:len(body)] else -1
+            if good < 0:
+                foreign = True
+                break
+            runs.append({"m": len(order), "from": 1, "to": 14 + good})
+            pos += 4 + ln
+        rec["order"] = order
+        allk = order + [k for k in range(len(sizes)) if k not in order]
+        rec["sends"] = [{"size": sizes[k] + 14, "ok": bool(done.get(k, False))} for k in allk]
+        rec["received"] = runs + ([{"m": 0, "from": 1, "to": 1}] if foreign else [])
+        tracing["on"] = False              # the recorded window ends before the final disable()
+        dn = {"v": False}
+
+        def dis():
+            proto.disable()
+            dn["v"] = True
+
+        simrt.Thread(target=dis, name="disable").start()
+        s.run_until(lambda: dn["v"], max_dt=60)
+        rec["disable_returned"] = dn["v"]
+
+    import secsgem.common.block_send_info as bsi
+    import secsgem.common.protocol as cp
+    import secsgem.common.protocol_dispatcher as pd
+    import secsgem.common.tcp_connection as tc
+    import secsgem.hsms.protocol as hp
+
+    def thread_sid():
+        nm = simrt.cur_sched().cur.name
+        if nm.startswith("sender"):
+            return int(nm[6:]) + 1
+        return 4 if nm.startswith("secsgem_tcp") else None
+
+    def live():
+        return rec.get("_tracing", {}).get("on", False)
+
+    def ex_call(fr, ret):
+        sd = thread_sid()
+        return {"s": sd} if live() and sd else None
+
+    def ex_got(fr, ret):
+        sd = thread_sid()
+        return {"s": sd, "ok": bool(ret)} if live() and sd else None
+
+    def ex_res(fr, ret):
+        ow = rec.get("_owner", {}).get(id(fr.f_locals["self"]))
+        return {"s": ow[0] or 0, "ok": bool(fr.f_locals["result"])} if live() and ow else None
+
+    def ex_live(fr, ret):
+        return {} if live() else None
+
+    s = simrt.run(main, seed=it["seed"], policy=it["policy"], switch_prob=0.25, max_vtime=1e5, wall_timeout=45, line_cost=1e-3,
+                  line_funcs=[tc.TcpConnection._start_receiver, tc.TcpConnection.disconnect],
+                  wake_lag=(("secsgem_HSMS_protocol_receiver",), 0.5, 0.3) if it.get("lag") else None,
+                  event_funcs=[(cp.Protocol.send_message, "Call", "call", ex_call), (cp.Protocol.send_message, "Got", "return", ex_got),
+                               (bsi.BlockSendInfo.resolve, "RRes", "call", ex_res), (hp.HsmsProtocol._on_disconnecting, "Notice", "call", ex_live),
+                               (pd.ProtocolDispatcher.stop, "Finish", "return", ex_live)])
+    simsock.set_net(None)
+    rec.pop("_owner", None)
+    rec.pop("_tracing", None)
+    rec["tev"] = [{"e": e["e"], "s": e.get("s", 0), "ok": bool(e.get("ok", False))} for e in s.events]
+    bad_ex = [e for e in s.events if e.get("extract_error")]
+    if bad_ex:
+        rec.setdefault("errors", []).append(("extract", bad_ex[0]["extract_error"]))
+    rec["outcome"] = s.outcome
+    if s.errors:
+        rec["errors"] = [e[:2] for e in s.errors[:2]]
+    if s.outcome != "done":
+        rec["wedge"] = s.wedge_info
+    return rec
+
+
+def multi_items(rng, n, first_id):
+    items = []
+    for i in range(n):
+        ns = [1, 2, 3, 2][i % 4]
+        bodies = [rng.choice([0, 10, 3000, 70000, 200000]) for _ in range(ns)]
+        if i % 3 != 2 and max(bodies) < 70000:
+            bodies[rng.randrange(ns)] = rng.choice([70000, 200000])
+        total = sum(b + 14 for b in bodies)
+        stop = None if i % 3 == 2 else rng.choice([0, 5, 14, 1000, 66000, total // 2, max(0, total - 20000)])
+        items.append({"id": first_id + i, "side": "server", "cap": 65536, "bodies": bodies, "sizes": [b + 14 for b in bodies], "stop_at": stop,
+                      "read": rng.choice([4096, 65536]), "pace": "protocol-concurrent", "short": "none",
+                      "then": "drain" if stop is None else f"peer-leaves-after-{stop}", "seed": rng.randrange(1 << 30),
+                      "policy": rng.choice(["fifo", "random", "pct"]), "lag": i % 2 == 0})
+        if i % 4 == 0:
+            items[-1].update({"stop_at": 0, "early": rng.choice([0.01, 0.05, 0.2]), "lag": True, "then": "peer-leaves-right-after-the-sends-were-queued"})
+    return items
+
+
+def run_proto_multi_batch(job):
+    import logging
+    logging.disable(logging.CRITICAL)
+    simsock.install()
+    return [run_proto_multi(it) for it in job]
 
 
 def run_proto_batch(job):
@@ -378,11 +610,21 @@ def run(ctx: Ctx):
                        (3 * MIB, 2 * MIB + 10)) if ctx.quick else \
             ((MIB - 14, None), (MIB - 13, None), (MIB + 1, None), (2 * MIB + 77, None), (2 * MIB + 77, 100), (2 * MIB + 77, MIB // 2),
              (2 * MIB + 77, MIB + 4096), (3 * MIB, 2 * MIB + 10), (5 * MIB, 4 * MIB + 1), (5 * MIB, None)):
-        tid += 1
-        pitems.append({"id": tid, "side": "server", "cap": 65536, "sizes": [size + 14], "size": size, "stop_at": stop, "read": rng.choice([4096, 65536, 1 << 20]),
-                       "pace": "protocol", "short": "none", "then": "peer-leaves" if stop is not None else "drain", "seed": rng.randrange(1 << 30),
-                       "policy": rng.choice(["fifo", "random"])})
+        for stall in ((None,) if stop is None or stop < MIB else (None, 100.0)):
+            tid += 1
+            pitems.append({"id": tid, "side": "server", "cap": 65536, "sizes": [size + 14], "size": size, "stop_at": stop, "stall": stall,
+                           "read": rng.choice([4096, 65536, 1 << 20]), "pace": "protocol", "short": "none",
+                           "then": ("peer-stalls-100s-then-leaves" if stall else "peer-leaves") if stop is not None else "drain",
+                           "seed": rng.randrange(1 << 30), "policy": rng.choice(["fifo", "random"])})
     recs += [r_ for batch in pmap(run_proto_batch, chunks(pitems, 10)) for r_ in batch]
+    # several application threads sending at the same time, the peer leaving in between (hand-over model: SendHandover)
+    from . import sendq_model
+    sendq_model.check(ctx, wd, "success")
+    mitems = multi_items(rng, 32 if ctx.quick else 320, tid + 1)
+    tid += len(mitems)
+    mrecs = [r_ for batch in pmap(run_proto_multi_batch, chunks(mitems, 4)) for r_ in batch]
+    recs += mrecs
+    sendq_model.validate(ctx, wd, [r_ for r_ in mrecs if r_["outcome"] == "done" and not r_.get("errors")], "c10")
     for r_ in recs:
         if r_.get("errors") and "Machinery" in str(r_["errors"]):
             raise Machinery(str(r_["errors"]))
@@ -420,7 +662,8 @@ def run(ctx: Ctx):
                 "1 MiB +-1, 3 MiB} x reader pacing {immediate, delayed, small reads} x short-write policy {none, half, random} x "
                 "{peer drains while the connection stays up, disable() right after the last send and the peer reads until EOF, "
                 "disable() while a send is blocked on a full socket (peer not reading) and the peer reads until EOF afterwards} + messages of "
-                "1 MiB -14 .. 5 MiB through the real HsmsProtocol send path (packet split), the peer leaving after k bytes; "
+                "1 MiB -14 .. 5 MiB through the real HsmsProtocol send path (packet split), the peer leaving after k bytes; 1-3 threads sending 0 B .. 200 KB "
+                "messages at the same time through the real HsmsProtocol, the peer draining or leaving after k bytes / right after the sends were queued; "
                 "non-trivial = distinct scenarios")
     ctx.assumptions += ["kernel TCP behaviour is the simulated socket layer (non-blocking send accepts 1..free bytes or raises EWOULDBLOCK)"]
     return ctx.finish()
